@@ -32,15 +32,16 @@ const (
 var causeNames = []string{"Close", "Close-from-several-tasks", "server-EOF", "peer-reset", "context-cancel", "QUIT+server-EOF"}
 
 type lifeCycle struct {
-	no       int
-	link     *simnet.Link
-	scripted bool // the scripted cause has been started
-	armed    bool
-	welcomed bool
-	regLines []string
-	regOK    bool
-	discSeen bool
-	cancel   context.CancelFunc
+	no                   int
+	link                 *simnet.Link
+	scripted             bool // the scripted cause has been started
+	armed                bool
+	welcomed             bool
+	regLines             []string
+	regOK                bool
+	discSeen             bool
+	cancel               context.CancelFunc
+	closesReturnedAtDial int
 
 	cause, cause2 int
 	delayKind     int
@@ -58,6 +59,10 @@ type lifeCycle struct {
 	closeWant     int
 	closeErrs     []error
 	markerOK      bool
+	dupConnect    bool  // Connect is called again while this connection is up
+	failFirst     []int // failing Connect attempts made before this connection: 0 no server, 1 dial error, 2 dial cancelled
+	dupDone       bool
+	dupErr        error
 }
 
 type lifeW struct {
@@ -81,12 +86,17 @@ type lifeW struct {
 	connectsBegun int
 	connects      int
 	discOther     map[string]int
-	closeInFlight int
+	closeCalls    int // user Close calls started
+	closeReturned int // ... and returned
 	bound         time.Duration
 }
 
+// causeBegun: something that legitimately ends connection cy has started: its
+// scripted cause, an injected fault, the server hanging up, or any user Close
+// call that had not returned when cy was dialled or was issued since (a Close
+// issued while the previous connection was ending may take effect on this one).
 func (w *lifeW) causeBegun(cy *lifeCycle) bool {
-	return cy.scripted || cy.link.FaultFired || cy.link.Down()
+	return cy.scripted || cy.link.FaultFired || cy.link.Down() || w.closeCalls > cy.closesReturnedAtDial
 }
 
 // causeObserved: the client has been told (Close/cancel called, or a socket
@@ -95,6 +105,12 @@ func (w *lifeW) causeBegun(cy *lifeCycle) bool {
 // through rate-limited output is not a disconnect in progress.
 func (w *lifeW) causeObserved(cy *lifeCycle) bool {
 	return cy.scripted || cy.link.ClientSawEnd
+}
+
+// definitelyBegun is causeBegun without the lenient clause about user Close
+// calls that may or may not land on this connection; liveness waits use it.
+func (w *lifeW) definitelyBegun(cy *lifeCycle) bool {
+	return cy.scripted || cy.link.FaultFired || cy.link.Down()
 }
 
 func (w *lifeW) curCycle() *lifeCycle {
@@ -114,10 +130,10 @@ func lifeRun(e *Env) {
 	w.pingFreq = []time.Duration{0, 0, 3 * time.Minute, 7 * time.Second, -time.Second}[g.Intn(5)]
 	w.nick = "me" + g.Str(lower, 1, 3)
 	if c07 {
-		w.ncycles = g.W(0, 3, 4, 2, 1) // 1..4
+		w.ncycles = 1 + g.W(3, 4, 2, 1) // 1..4
 		w.reconn = g.W(2, 2, 1)
 	} else {
-		w.ncycles = g.W(0, 5, 3, 1)
+		w.ncycles = 1 + g.W(5, 3, 1)
 		w.reconn = g.W(3, 1, 1)
 	}
 	w.sampleConnected = g.Pct(70)
@@ -151,6 +167,12 @@ func lifeRun(e *Env) {
 		}
 		cy.quiet = []time.Duration{0, 0, time.Second, 30 * time.Second, 4 * time.Minute}[g.Intn(5)]
 		cy.midLine = g.Pct(20)
+		if e.Prop == "C06" {
+			cy.dupConnect = g.Pct(35)
+			for k := g.W(5, 3, 1); k > 0; k-- {
+				cy.failFirst = append(cy.failFirst, g.Intn(3))
+			}
+		}
 		w.plans = append(w.plans, cy)
 	}
 
@@ -177,6 +199,7 @@ func lifeRun(e *Env) {
 			cy = &lifeCycle{no: l.ID, cause: causeEOF, cause2: -1, closers: 1}
 		}
 		cy.link = l
+		cy.closesReturnedAtDial = w.closeReturned
 		w.cycles = append(w.cycles, cy)
 		e.S.Spawn(fmt.Sprintf("server%d", l.ID), func() { w.server(cy) })
 	}
@@ -250,10 +273,7 @@ func (w *lifeW) install() {
 				}
 				cy = w.cycles[n-1]
 				cy.discSeen = true
-				if !w.causeBegun(cy) && w.closeInFlight > 0 {
-					// a user task's Close, issued while the previous connection was
-					// ending, took effect on this one: a legitimate cause
-					cy.scripted = true
+				if !cy.scripted && !cy.link.FaultFired && !cy.link.Down() && w.causeBegun(cy) {
 					e.S.Count("probe.user-close-landed-on-next-connection")
 				}
 				if !w.causeBegun(cy) && e.Prop == "C07" {
@@ -324,6 +344,11 @@ func (w *lifeW) install() {
 // connect issues Connect and checks what C06 says about its return.
 func (w *lifeW) connect() {
 	e := w.e
+	if next := w.connectsBegun; next < len(w.plans) {
+		for _, kind := range w.plans[next].failFirst {
+			w.failingConnect(kind)
+		}
+	}
 	w.connectsBegun++
 	n := w.connectsBegun
 	ctx, cancel := context.WithCancel(context.Background())
@@ -350,6 +375,119 @@ func (w *lifeW) connect() {
 		}
 		e.Check()
 	}
+}
+
+// failingConnect makes one Connect attempt that must fail, fire no event and
+// leave the client unconnected.
+func (w *lifeW) failingConnect(kind int) {
+	e := w.e
+	reg, disc, dials := w.regEnter, w.discCount, len(e.Dials)
+	var err error
+	switch kind {
+	case 0:
+		old := w.c.Config().Server
+		w.c.Config().Server = ""
+		err = w.c.Connect()
+		w.c.Config().Server = old
+		if len(e.Dials) != dials {
+			e.Violation("connect-refused", "Connect with no server configured dialled %q", e.Dials[len(e.Dials)-1])
+		}
+		e.S.Count("fault.connect-without-server")
+	case 1:
+		e.DialErr = func(n int, addr string) error { return errors.New("sim: connection refused") }
+		err = w.c.Connect()
+		e.DialErr = nil
+	case 2:
+		ctx, cancel := context.WithCancel(context.Background())
+		waiting := false
+		e.DialWait = func(c context.Context, n int) error {
+			waiting = true
+			simrt.Block("dial", "dial in progress (until the context is cancelled)", func() bool { return c.Err() != nil })
+			return c.Err()
+		}
+		if !w.ctxDial {
+			// a dialer without context support cannot be interrupted: it fails by itself
+			e.DialWait = func(c context.Context, n int) error {
+				simrt.Sleep(30 * time.Second)
+				return errors.New("sim: i/o timeout")
+			}
+			cancel()
+		} else {
+			e.S.Spawn(fmt.Sprintf("dial-canceller%d", len(e.Dials)), func() {
+				simrt.Block("dial-canceller", "dial to start", func() bool { return waiting })
+				simrt.Sleep(time.Duration(w.g.S.Choose(5)) * time.Second)
+				cancel()
+			})
+		}
+		err = w.c.ConnectContext(ctx)
+		e.DialWait = nil
+		cancel()
+	}
+	if err == nil {
+		e.Violation("connect-refused", "a Connect attempt that cannot succeed (%s) returned nil", []string{"no server configured", "dial error", "dial cancelled/timed out"}[kind])
+	}
+	simrt.Settle(time.Second)
+	if w.regEnter != reg || w.discCount != disc {
+		e.Violation("connect-refused", "a failed Connect (%v) fired events: REGISTER %d->%d DISCONNECTED %d->%d", err, reg, w.regEnter, disc, w.discCount)
+	}
+	if w.c.Connected() {
+		e.Violation("connect-refused", "Connected() is true after a failed Connect (%v)", err)
+	}
+	e.Check()
+}
+
+// dupConnect calls Connect while connection cy is up: it must be refused, fire
+// nothing, and leave the connection working.
+func (w *lifeW) dupConnect(cy *lifeCycle) {
+	e, l := w.e, cy.link
+	// REGISTER of the establishing Connect runs concurrently with the event
+	// loop: let that Connect return first so its events are not miscounted
+	if !simrt.BlockFor("life.server", "the establishing Connect to return", time.Hour, func() bool { return w.connects >= cy.no || w.causeBegun(cy) }) || w.causeBegun(cy) {
+		return
+	}
+	reg, disc := w.regEnter, w.discCount
+	e.S.Count("fault.connect-while-connected")
+	e.S.Spawn(fmt.Sprintf("dup-connect%d", cy.no), func() {
+		e.S.Logf("Connect called while connection %d is up", cy.no)
+		cy.dupErr = w.c.Connect()
+		cy.dupDone = true
+	})
+	if !simrt.BlockFor("life.server", "Connect-while-connected to return", 10*time.Minute, func() bool { return cy.dupDone }) {
+		e.Violation("connect-while-connected", "Connect called on a connected client did not return\n%s", e.S.TaskDump())
+		return
+	}
+	if w.causeBegun(cy) {
+		return // the connection was ending anyway: nothing is claimed
+	}
+	if cy.dupErr == nil {
+		e.Violation("connect-while-connected", "Connect on a connected client returned nil")
+	}
+	tok := fmt.Sprintf("after-dup-%d", cy.no)
+	l.SendLine("PING :" + tok)
+	ok := false
+	for {
+		ln, got := l.RecvLineFor(10 * time.Minute)
+		if !got {
+			break
+		}
+		if strings.TrimRight(ln, "\r\n") == "PONG :"+tok {
+			ok = true
+			break
+		}
+	}
+	if w.causeBegun(cy) {
+		return
+	}
+	if !ok {
+		e.Violation("connect-while-connected", "after a refused Connect the existing connection %d no longer answers PING\n%s", cy.no, e.S.TaskDump())
+	}
+	if w.regEnter != reg || w.discCount != disc {
+		e.Violation("connect-while-connected", "a refused Connect fired events: REGISTER %d->%d DISCONNECTED %d->%d", reg, w.regEnter, disc, w.discCount)
+	}
+	if !w.c.Connected() {
+		e.Violation("connect-while-connected", "Connected() is false after a refused Connect although connection %d is up", cy.no)
+	}
+	e.Check()
 }
 
 func (w *lifeW) server(cy *lifeCycle) {
@@ -394,6 +532,9 @@ func (w *lifeW) server(cy *lifeCycle) {
 	}
 	if !cy.markerOK && !w.causeBegun(cy) && !l.ClientEnd && e.Prop == "C07" {
 		e.Violation("marker-unanswered", "connection %d did not answer PING %s within %v although nothing had ended it\n%s", cy.no, tok, deadline, e.S.TaskDump())
+	}
+	if cy.dupConnect && cy.markerOK {
+		w.dupConnect(cy)
 	}
 	if cy.quiet > 0 {
 		simrt.Sleep(cy.quiet)
@@ -473,9 +614,9 @@ func (w *lifeW) fire(cy *lifeCycle, cause int, tag string) {
 				delay()
 				cy.scripted = true
 				e.S.Logf("cause: Close() on connection %d", cy.no)
-				w.closeInFlight++
+				w.closeCalls++
 				err := w.c.Close()
-				w.closeInFlight--
+				w.closeReturned++
 				cy.closeErrs = append(cy.closeErrs, err)
 				cy.closeRet++
 			})
@@ -528,8 +669,8 @@ func (w *lifeW) runCycle(i int) {
 	}
 	cy := w.cycles[i]
 	// wait for whatever ends it to begin (the harness always starts a cause)
-	simrt.BlockFor("life.main", "disconnect cause to begin", 3*time.Hour, func() bool { return w.causeBegun(cy) || cy.discSeen })
-	if !w.causeBegun(cy) && !cy.discSeen {
+	simrt.BlockFor("life.main", "disconnect cause to begin", 3*time.Hour, func() bool { return w.definitelyBegun(cy) || cy.discSeen })
+	if !w.definitelyBegun(cy) && !cy.discSeen {
 		if !cy.regOK && e.Prop == "C07" && cy.no > 1 {
 			e.Violation("no-registration-on-reconnect", "connection %d: the client never sent NICK/USER after reconnecting (got %q)\n%s", cy.no, cy.regLines, e.S.TaskDump())
 		}
